@@ -490,7 +490,7 @@ class _Ctx:
         self.status = 'violation'
 
 
-def run_tool(mod, argv):
+def run_tool(mod, argv, scrub=None):
     old_argv, old_cwd = sys.argv, os.getcwd()
     buf = io.StringIO()
     sys.argv = argv
@@ -509,7 +509,10 @@ def run_tool(mod, argv):
                         where = '%s:%s' % (os.path.basename(fr.filename), fr.name)
                         break
                 inner = tb[-1]
-                out = ('exc', type(e).__name__, where, '%s:%s' % (os.path.basename(inner.filename), inner.name), str(e)[:300], stem(str(e)))
+                msg = str(e)
+                if scrub:
+                    msg = msg.replace(scrub, '<root>')
+                out = ('exc', type(e).__name__, where, '%s:%s' % (os.path.basename(inner.filename), inner.name), msg[:300], stem(msg))
     finally:
         sys.argv = old_argv
         cwd_moved = False
@@ -723,7 +726,7 @@ def execute(plan):
             x = _load('pycdlib-extract-files')
             g.os = OsShim(plan['listdir_seed'])
             os.chdir(root)
-            res, log, moved = run_tool(g, gen_argv(plan, src_root, out_iso))
+            res, log, moved = run_tool(g, gen_argv(plan, src_root, out_iso), root)
             os.chdir(root)
             _probe_tree(ctx, plan, src)
             h.update(repr(res[:4]).encode())
@@ -767,7 +770,7 @@ def execute(plan):
                         ctx.probes['auto_view'] += 1
                     dest = os.path.join(root, 'x-' + view)
                     os.makedirs(dest)
-                    res, log, moved = run_tool(x, ['pycdlib-extract-files', '-path-type', view, '-extract-to', dest, out_iso])
+                    res, log, moved = run_tool(x, ['pycdlib-extract-files', '-path-type', view, '-extract-to', dest, out_iso], root)
                     h.update(repr((view, res[:4], moved)).encode())
                     nviews += 1
                     ctx.probes['views_extracted'] += 1
@@ -807,7 +810,7 @@ def execute(plan):
                         ctx.probes['start_path'] += 1
                         dest = os.path.join(root, 'x-start')
                         os.makedirs(dest)
-                        res, log, moved = run_tool(x, ['pycdlib-extract-files', '-path-type', st['view'], '-start-path', '/' + st['dir'], '-extract-to', dest, out_iso])
+                        res, log, moved = run_tool(x, ['pycdlib-extract-files', '-path-type', st['view'], '-start-path', '/' + st['dir'], '-extract-to', dest, out_iso], root)
                         h.update(repr(('start', res[:4])).encode())
                         if res[0] == 'exc':
                             ctx.violate(['extract-files', st['view'], 'start-path', 'exception', res[1], res[2], res[3], res[5]], '%s: %s' % (res[1], res[4]))
